@@ -237,6 +237,11 @@ def await_hook(ex, v, frame, node):
             c.effect()
         return None
     if isinstance(v, tuple) and len(v) == 2 and v[0] == "wait_for":
+        if ex.opt.get("track_frames"):
+            # C30's bounded variant: the group is stopped after three cycles
+            ex.ghost["cycles"] = ex.ghost.get("cycles", 0) + 1
+            if ex.ghost["cycles"] >= 3:
+                ex.inputs["self"].fields["running"] = False
         if ex.choose(2, "wait_for: response / timeout") == 1:
             ex.raise_builtin(TimeoutError)
         return fresh(ex, T.Bytes, "response")
@@ -250,6 +255,19 @@ class RoundtripPacket(Contract_):
     loops = {}
 
     def apply(self, ex, args, kwargs, frame, node):
+        g = ex.inputs.get("self")
+        nxt = g.fields.get("g_next") if isinstance(g, Obj) else None
+        if isinstance(g, Obj) and ex.opt.get("track_frames") and nxt is None and len(args) > 1:
+            g.fields["g_next"] = args[1]        # the first frame of the run: the assembled one
+        elif nxt is not None and len(args) > 1:
+            from vc.pyvc import ops
+            from vc.pyvc.values import lift_bool
+            same = ops.values_equal(ex, args[1], nxt)
+            ex.check(f"{ex.target_short}.sends[the frame the last update_devices returned]",
+                     same if isinstance(same, bool) else lift_bool(same),
+                     "what goes onto the bus - also when a frame is resent after a timeout - is the assembled "
+                     "frame at first and afterwards the frame returned by the last update_devices (the outputs "
+                     "the devices set, cleared working counters)")
         return Obj(FutureModel, {}, ex.fresh_name("future"))
 
 
@@ -259,7 +277,11 @@ class UpdateDevices(Contract_):
     loops = {}
 
     def apply(self, ex, args, kwargs, frame, node):
-        return fresh(ex, T.Bytes, "next_frame")
+        f = fresh(ex, T.Bytes, "next_frame")
+        g = ex.inputs.get("self")
+        if isinstance(g, Obj) and ex.opt.get("track_frames"):
+            g.fields["g_next"] = f
+        return f
 
 
 def install():
@@ -314,12 +336,30 @@ def group_setup(n):
         g.fields["terminals"] = terms
         g.fields["fmmu_maps"] = maps
         g.fields["g_asked"] = PDict()
+        # C30: the frame that goes out next - the assembled one at first, then
+        # what the last update_devices returned
     return setup
 
 
 RUN_LOOP = Loop(invariant={},
                 modifies={"data": T.Bytes, "future": T.Obj(FutureModel), "newtime": T.Real,
                           "lasttime": T.Real, "self.missed_counter": T.Range(0, None)})
+
+
+def run_frames_contract():
+    """C30: which frame goes onto the bus in each cycle of the slow group's run,
+    for the first three cycles with every combination of responses and
+    timeouts (the loop is unrolled, so the clause does not depend on the names
+    of the locals)"""
+    c = Contract(
+        SyncGroupBase.run, name="SyncGroupBase.run<frames of the first three cycles>",
+        params=group_params(SyncGroup, 1), setup=group_setup(1),
+        loops={},
+        ensures={}, raises=[Raises(EtherCatError, when=None)],
+        modifies=None,
+        options={"track_frames": True, "unroll_limit": 6, "cancellation": False, "await": await_hook,
+                 "inline": {"ebpfcat.ebpfcat:SyncGroupBase.map_fmmu"}})
+    return c
 
 
 def run_contract(cls, n):
